@@ -294,7 +294,7 @@ class BaseClientHandler:
             )
             if self.server and imap_command.command:
                 self.server.num_failed_commands[imap_command.command] += 1
-            result = f"{imap_command.tag} BAD Command timed out: '{imap_command.qstr()}'"
+            result = f"{imap_command.tag} BAD Command timed out: '{imap_command.qstr()}'\r\n"
             try:
                 await self.client.push(result)
             except Exception:
@@ -324,12 +324,17 @@ class BaseClientHandler:
 
             if self.server and imap_command.command:
                 self.server.num_failed_commands[imap_command.command] += 1
-            result = f"{imap_command.tag} BAD Unhandled exception: {e}"
+            # The client still gets its (one) tagged response, as a complete
+            # line, and the connection stays usable: the exception was logged
+            # above and concerns this command only.
+            #
+            text = " ".join(str(e).split())
+            result = f"{imap_command.tag} BAD Unhandled exception: {text}\r\n"
             try:
-                await self.client.push(result.strip())
+                await self.client.push(result)
             except Exception:
                 pass
-            raise
+            return
         finally:
             imap_command.timeout_cm = None
             cmd_duration = asyncio.get_running_loop().time() - start_time
